@@ -481,6 +481,14 @@ pub fn run(ctx: &Ctx) -> CheckResult {
             res.absorb(merge_jobs(outs));
         }
     }
+    // lifecycle state graph: clone() checked in EVERY reachable state (fixpoint where the graph is finite)
+    if !res.out.failed() {
+        let (o, grows) = super::graph::run_all(ctx, PROP, super::graph::Fork::Clone, if th { &[1, 2, 3, 4, 5] } else { &[1, 2, 3, 4] }, &[1, 2], if th { 150_000 } else { 5_000 }, if th { 16 } else { 10 });
+        let fixpoints = grows.iter().filter(|r| r["fixpoint"] == true).count();
+        res.extra.insert("lifecycle_graph".into(), json!(grows));
+        res.extra.insert("lifecycle_graph_fixpoints".into(), json!(fixpoints));
+        res.absorb(o);
+    }
     // DataItem clone
     if !res.out.failed() {
         let it = DataItem::builder().open(2.0).high(3.0).low(1.0).close(2.5).volume(7.0).build().unwrap();
